@@ -718,7 +718,6 @@ func (b *CFGBuilder) processForStatement(stmt *parser.Node) {
 		excDepth:    len(b.exceptionStack),
 	}
 	b.pushLoopContext(loopCtx)
-	defer b.popLoopContext()
 
 	// Connect header to body (loop condition true - has more items)
 	b.cfg.ConnectBlocks(headerBlock, bodyBlock, EdgeCondTrue)
@@ -740,6 +739,10 @@ func (b *CFGBuilder) processForStatement(stmt *parser.Node) {
 	if !b.hasSuccessor(b.currentBlock, b.cfg.Exit) {
 		b.cfg.ConnectBlocks(b.currentBlock, headerBlock, EdgeLoop)
 	}
+
+	// The loop ends with its body: a break or continue in the else clause belongs
+	// to the enclosing loop
+	b.popLoopContext()
 
 	// Process else clause if present
 	if elseBlock != nil {
@@ -787,7 +790,6 @@ func (b *CFGBuilder) processWhileStatement(stmt *parser.Node) {
 		excDepth:    len(b.exceptionStack),
 	}
 	b.pushLoopContext(loopCtx)
-	defer b.popLoopContext()
 
 	// Connect header to body (condition true)
 	b.cfg.ConnectBlocks(headerBlock, bodyBlock, EdgeCondTrue)
@@ -809,6 +811,10 @@ func (b *CFGBuilder) processWhileStatement(stmt *parser.Node) {
 	if !b.hasSuccessor(b.currentBlock, b.cfg.Exit) {
 		b.cfg.ConnectBlocks(b.currentBlock, headerBlock, EdgeLoop)
 	}
+
+	// The loop ends with its body: a break or continue in the else clause belongs
+	// to the enclosing loop
+	b.popLoopContext()
 
 	// Process else clause if present
 	if elseBlock != nil {
